@@ -1,12 +1,19 @@
 """C05 -- tracked allocations return sound blocks for every size, or fail cleanly.
-Scenario :  <guard 0|1> <node_size> <nfail> <failing underlying-call index>*  <op>*
+Scenario :  <guard 0|1> <node_size> <nfail> <failing underlying-call index>*  [:wrap]  <op>*
+  :wrap  :  memory accounting on: the harness starts a GlobalMemoryAccountant, i.e. an AccountingTestMemoryAllocator sits around
+            each of the three recording allocators (malloc, new, new[]) for the whole scenario.  No fault indices then (nfail = 0).
   op     :  :m n | :dm n | :c num size | :r id|~ n | :sd $str | :sn $str n | :n n | :na n | :nt n | :nat n | :nd n | :nad n | :f id | :w id off $bytes
             (id = index of the op that produced the block; :dm = detector-level allocMemory with an inline record)
-Observation: <guard> <sizeof record> then per op
-  | kind ncalls (ckind size ok)* addr%16 offset-in-region region-size recordkind recordval digest tracked-total reports
+Observation: <guard> <sizeof record> <wrappers installed 0|1> then per op
+  | kind ncalls (ckind size ok)* addr%16 overlap offset-in-region region-size recordkind recordval digest tracked-total reports
   and  | :end nlive (id digest)* total reports : the blocks still live (newest first) with their content, read back before the
   harness releases every remaining block; total / reports after that release.
-kind: 0 skipped 1 NULL 2 bad_alloc 3 pointer 4 void.  recordkind 1 = inline at offset recordval, 2 = own region of size recordval."""
+kind: 0 skipped 1 NULL 2 bad_alloc 3 pointer 4 void.  recordkind 1 = inline at offset recordval, 2 = in another region with recordval
+bytes from the record to the end of that region.  overlap = 1: user bytes + guard or record of the new block intersect those of
+another live block (or each other).
+With wrappers the call log also holds the wrappers' own requests (tracking nodes, the accountant's per-size nodes); the model does
+not predict those: `project` reduces every call log of a wrapper observation to "did a call fail" (Coq: C05_Wrapper.canon, and
+C05_spec_wrap_reads_failure_only: that is all the oracle reads of it) before model and implementation are compared."""
 import os, subprocess, hashlib, tempfile
 import vlib
 from vlib import tz, tb
@@ -21,10 +28,16 @@ RULE = ("size sweep: every size 0..4096 through at least one separate-record ent
         "2^64-1-(guard+8+record)), calloc pairs around 2^32 x 2^32, (2^k, 2^(64-k) +- 1), zero factors; strdup/strndup over lengths 0..40 with "
         "n in {0, len-1, len, len+1, huge}; realloc grow/shrink/same/0 chains with written content; fault enumeration: every underlying call index "
         "of a 14-allocation workload taken in turn as the failing malloc/realloc (pairs in thorough); random histories; each scenario in both "
-        "builds (guard bytes on / off). non-trivial = at least one allocation-like op")
+        "builds (guard bytes on / off). With the accounting wrapper allocators installed (GlobalMemoryAccountant started; no fault indices, "
+        "requests above 1 MiB still refused): every size 0..520 through a separate- and an inline-record entry point, every 5th boundary size "
+        "and the sizes around the overflow threshold, a quarter of the calloc pairs, a third of the strings, realloc chains, the workload, "
+        "random histories. non-trivial = at least one allocation-like op")
 ASSUMPTIONS = ["LP64 (size_t 64 bit, pointer 8 bytes)", "the underlying allocator returns fresh, suitably aligned regions of the requested size or NULL "
                "(libc malloc/realloc behind the recording seam; requests above 1 MiB are refused by the seam)",
-               "sizeof(MemoryLeakDetectorNode) is a multiple of 8 below 2^16 (measured by the harness, echoed in every observation)"]
+               "sizeof(MemoryLeakDetectorNode) is a multiple of 8 below 2^16 (measured by the harness, echoed in every observation)",
+               "scenarios with the accounting wrappers installed carry no fault indices: the unchanged wrapper dereferences its own node when the "
+               "underlying allocator refuses it (TestMemoryAllocator.cpp addMemoryToMemoryTrackingToKeepTrackOfSize, "
+               "MemoryAccountant::createNewAccountantAllocationNode); refusal by size (> 1 MiB) is exercised with wrappers"]
 
 _ns = None
 
@@ -58,11 +71,17 @@ ALLOCS = (":m", ":dm", ":c", ":r", ":sd", ":sn", ":n", ":na", ":nt", ":nat", ":n
 NOP = [":f", "ffffffff"]
 
 
+def is_wrap(s):
+    return " :wrap" in s
+
+
 def parse(s):
     t = s.split()
     g, ns, nf = int(t[0], 16), int(t[1], 16), int(t[2], 16)
     fails = [int(x, 16) for x in t[3:3 + nf]]
     ops, i = [], 3 + nf
+    if i < len(t) and t[i] == ":wrap":
+        i += 1
     while i < len(t):
         k = ARITY[t[i]]
         ops.append(t[i:i + 1 + k])
@@ -70,14 +89,17 @@ def parse(s):
     return g, ns, fails, ops
 
 
-def unparse(g, ns, fails, ops):
-    return " ".join(["%x" % g, "%x" % ns, "%x" % len(fails)] + ["%x" % f for f in fails] + [x for o in ops for x in o])
+def unparse(g, ns, fails, ops, wrap=False):
+    return " ".join(["%x" % g, "%x" % ns, "%x" % len(fails)] + ["%x" % f for f in fails] + ([":wrap"] if wrap else []) + [x for o in ops for x in o])
 
 
-def both(fails, ops):
+def both(fails, ops, wrap=False):
     ns = node_size()
     body = " ".join(ops) if isinstance(ops, list) else ops
     head = " ".join(["%x" % len(fails)] + ["%x" % f for f in fails])
+    if wrap:
+        assert not fails
+        body = ":wrap " + body
     return ["1 %x %s %s" % (ns, head, body), "0 %x %s %s" % (ns, head, body)]
 
 
@@ -179,6 +201,66 @@ def generate(tier, rng):
                 out += both([k, k2], WORKLOAD)
     # 7. random histories
     nrand = 250 if tier == "quick" else 6000
+    out += random_histories(rng, nrand, allk, False)
+    # 8. the same entry points with the accounting wrapper allocators installed (memory accounting on)
+    out += with_wrappers(tier, rng, bs, pl, strs, allk)
+    return out
+
+
+def with_wrappers(tier, rng, bs, pl, strs, allk):
+    """Scenarios run under GlobalMemoryAccountant::start(): an AccountingTestMemoryAllocator between every entry point and the
+    recording allocator.  Alignment, usable bytes, disjointness, contents, totals and clean refusal (by size) are judged as without
+    wrappers; fault indices are not used (see ASSUMPTIONS)."""
+    out = []
+    thorough = tier == "thorough"
+    # every size 0..520 (4096 in thorough): one separate-record and one inline-record entry point each
+    ops = []
+    for n in range(0, 4097 if thorough else 521):
+        ops.append("%s %x" % (SEP_KINDS[(n // 16) % 2], n))
+        ops.append("%s %x" % (INL_KINDS[n % 7], n))
+        if len(ops) >= 16:
+            out += both([], ops, True)
+            ops = []
+    if ops:
+        out += both([], ops, True)
+    # boundary sizes: every 5th (all in thorough), and everything around the overflow threshold; a realloc to the size
+    for j, n in enumerate(bs):
+        top = n >= W - 100
+        if not (thorough or j % 5 == 0 or (top and j % 2 == 0)):
+            continue
+        if is_big(n) and not (thorough or j % 40 == 0):      # the model materialises contents: few blocks between 4 KiB and 1 MiB
+            continue
+        ks = [allk[j % len(allk)], allk[(j + 4) % len(allk)]]
+        if is_big(n):
+            ks = ks[:1]
+        ops = ["%s %x" % (kk, n) for kk in ks]
+        if not is_big(n):
+            ops += [":m 5", ":w %x 0 $0102030405" % len(ops), ":r %x %x" % (len(ops), n)]
+        out += both([], ops, True)
+    # calloc pairs, strings
+    step = 1 if thorough else 4
+    for i in range(0, len(pl), 6 * step):
+        out += both([], [":c %x %x" % q for q in pl[i:i + 6]], True)
+    for s in strs[::(1 if thorough else 3)]:
+        l = len(s.split(b"\x00")[0])
+        ns_ = sorted(set(x for x in (0, l - 1, l, l + 1, W - 1) if 0 <= x < W))
+        out += both([], [":sd " + tb(s)] + [":sn %s %x" % (tb(s), n) for n in ns_], True)
+    # realloc chains with content (the reallocation itself does not pass through the wrapper, the release of the moved block does)
+    for n1 in (0, 1, 8, 13, 64, 100):
+        for n2 in (0, 1, n1 - 1, n1 + 1, 2 * n1 + 5, 5000, (1 << 20) + 1, W - 1):
+            if not 0 <= n2 < W or (n2 == 5000 and n1 != 8 and not thorough):
+                continue
+            data = bytes((i * 37 + 11) % 256 for i in range(min(n1, 90)))
+            for first in (":m", ":dm"):
+                ops = ["%s %x" % (first, n1), ":w 0 0 " + tb(data), ":r 0 %x" % n2, ":r 2 %x" % n1, ":m %x" % n1, ":f 3", ":n %x" % n1, ":r 4 %x" % (n2 // 2 if n2 < 6000 else 77)]
+                out += both([], ops, True)
+    out += both([], WORKLOAD, True)
+    out += random_histories(rng, 1500 if thorough else 80, allk, True)
+    return out
+
+
+def random_histories(rng, nrand, allk, wrap):
+    out = []
     for h in range(nrand):
         ops, allocs = [], []
         for i in range(rng.randrange(3, 22)):
@@ -200,14 +282,41 @@ def generate(tier, rng):
                 ops.append(":w %x %x %s" % (rng.choice(allocs), rng.randrange(0, 9), tb(bytes(rng.randrange(256) for _ in range(rng.randrange(0, 9))))))
             else:
                 ops.append(":m %x" % small); allocs.append(i)
-        fails = sorted(set(rng.randrange(0, 30) for _ in range(rng.choice([0, 0, 1, 1, 2, 4]))))
-        out += both(fails, ops)
+        fails = [] if wrap else sorted(set(rng.randrange(0, 30) for _ in range(rng.choice([0, 0, 1, 1, 2, 4]))))
+        out += both(fails, ops, wrap)
     return out
 
 
 def applies(s, flavour):
     t = s.split()
     return (t[0] == "1") == (flavour == "asan") and int(t[1], 16) == node_size()
+
+
+def project(obs, flavour):
+    """Observation of a wrapper scenario (third token 1): every call log becomes "did a call fail" (C05_Wrapper.canon_calls).  The
+    model does not predict the wrappers' own underlying requests, and the oracle does not read more of the log
+    (C05_spec_wrap_reads_failure_only).  Every other component, and every observation without wrappers, is compared as it is."""
+    t = obs.split()
+    if len(t) < 3 or t[2] != "1" or obs.startswith("!"):
+        return obs
+    out, i = t[:3], 3
+    try:
+        while i < len(t):
+            if t[i] != "|":
+                return obs
+            if t[i + 1] == ":end":
+                out += t[i:]
+                break
+            nc = int(t[i + 2], 16)
+            calls = t[i + 3:i + 3 + 3 * nc]
+            failed = any(calls[3 * k + 2] == "0" for k in range(nc))
+            out += [t[i], t[i + 1]] + (["1", "0", "0", "0"] if failed else ["0"])
+            j = i + 3 + 3 * nc
+            out += t[j:j + 9]
+            i = j + 9
+    except (IndexError, ValueError):
+        return obs
+    return " ".join(out)
 
 
 def nontrivial(s):
@@ -227,6 +336,8 @@ def sizeclass(n):
 def classify(s):
     g, ns, fails, ops = parse(s)
     lab = set(["guard" if g else "noguard"])
+    if is_wrap(s):
+        lab.add("accounting wrappers installed")
     if fails:
         lab.add("faults:%d" % min(len(fails), 3))
     for o in ops:
@@ -244,6 +355,8 @@ def signature(s, o):
     g, ns, fails, ops = parse(s)
     kinds = sorted(set(x[0] for x in ops if x[0] in ALLOCS))
     what = "crash " + o.split("@")[0].strip()[:60] if o.startswith("!") else "spec"
+    if is_wrap(s):      # one replay per build and kind of failure: what differs from the scenarios without wrappers is the wrapper, not the entry point
+        return "%s+wrappers %s" % ("guard" if g else "noguard", what)
     return "%s %s faults=%d ops=%s" % ("guard" if g else "noguard", what, len(fails), ",".join(kinds))
 
 
@@ -268,24 +381,33 @@ def drop_op(ops, i):
 
 
 def shrink(s):
+    for c in shrink_ops(s):
+        yield c
+    if is_wrap(s):          # does it also fail without the wrappers?
+        g, ns, fails, ops = parse(s)
+        yield unparse(g, ns, fails, ops)
+
+
+def shrink_ops(s):
     g, ns, fails, ops = parse(s)
+    wrap = is_wrap(s)
     if ops:
-        yield unparse(g, ns, fails, ops[:-1])
+        yield unparse(g, ns, fails, ops[:-1], wrap)
     # delete an op (renumbering the ids behind it); the underlying call indices move, so also try the fault points moved down
     for i in range(len(ops)):
         rest = drop_op(ops, i)
-        yield unparse(g, ns, fails, rest)
+        yield unparse(g, ns, fails, rest, wrap)
         for d in (1, 2):
             if fails and min(fails) >= d:
-                yield unparse(g, ns, [f - d for f in fails], rest)
+                yield unparse(g, ns, [f - d for f in fails], rest, wrap)
     for i in range(len(ops)):
         if ops[i] != NOP:
-            yield unparse(g, ns, fails, ops[:i] + [NOP] + ops[i + 1:])
+            yield unparse(g, ns, fails, ops[:i] + [NOP] + ops[i + 1:], wrap)
     for i in range(len(fails)):
-        yield unparse(g, ns, fails[:i] + fails[i + 1:], ops)
+        yield unparse(g, ns, fails[:i] + fails[i + 1:], ops, wrap)
     # smaller sizes / shorter strings in the last op
     if ops and ops[-1][0] in (":w",) and len(ops[-1][3]) > 3:
-        yield unparse(g, ns, fails, ops[:-1] + [ops[-1][:3] + [ops[-1][3][:-2]]])
+        yield unparse(g, ns, fails, ops[:-1] + [ops[-1][:3] + [ops[-1][3][:-2]]], wrap)
 
 
 LEVEL_TEXT = ("Machine-checked (Coq) theorems over an executable model of allocMemory/reallocMemory/deallocMemory with the size arithmetic written "
@@ -293,11 +415,17 @@ LEVEL_TEXT = ("Machine-checked (Coq) theorems over an executable model of allocM
               "variants, against an oracle underlying allocator: layout soundness for every size, rejection of every overflowing size/product, "
               "clean failure at every fault point (nothing lost, everything still tracked), disjointness of live blocks and records over all "
               "histories, content theorems for realloc/calloc/strdup/strndup. Tied to the code by a differential run of the extracted model "
-              "against the real entry points over recording allocator seams under ASan/UBSan, in the builds with and without guard bytes.")
+              "against the real entry points over recording allocator seams under ASan/UBSan, in the builds with and without guard bytes, "
+              "without and with the accounting wrapper allocators installed (GlobalMemoryAccountant started); the wrapper's alloc/free is "
+              "modelled and proved transparent for address, alignment and size, and the oracle on wrapper scenarios is proved to demand "
+              "everything it demands without wrappers except the sizes and balance of the underlying calls.")
 LEVEL_NOTE = ("Partial: the model is bounds-checked, so the logic of memory safety is proved; actual heap accesses are seen only by ASan in the runs. "
               "Trusted: Coq kernel, extraction, harness (seams, region bookkeeping), generators, LP64. Modelled not verified: the C++ itself; libc "
               "malloc/realloc behind the seam (the byte copy of a realloc is libc's, the model states its contract); the default allocators' "
               "FAIL-on-NULL path (checkedMalloc) is not exercised; disjointness of different blocks is proved relative to the oracle handing out "
-              "non-overlapping regions (C05_live_disjoint), the runs see it only through ASan.")
+              "non-overlapping regions (C05_live_disjoint); in the runs the harness compares the address ranges of all live blocks and records "
+              "(overlap flag, judged by the oracle) and ASan watches the accesses. With the wrappers installed the model does not predict the "
+              "wrappers' own underlying requests (call logs compared only as 'a call failed'), fault indices are not used (the unchanged wrapper "
+              "dereferences its own node when the underlying allocator refuses it), and the accountant's statistics are not part of the property.")
 TECHNIQUE = "Coq proof over hand-written executable model + extracted-model/implementation correspondence check (differential, boundary sweep + fault enumeration)"
 READY = True
